@@ -100,6 +100,9 @@ def interior_case(name, mk, info, k, m=2):
 def _both_bands(sh, p, prm, L, tol):
     """point within tol of the boundaries of both operands of the top-level Boolean op"""
     o = sh.oset
+    while hasattr(o, "to_inner"):  # translated / rotated Boolean combination: look at the inner expression
+        p = o.to_inner(p, prm, L)
+        o = o.inner
     a, b = getattr(o, "a", None), getattr(o, "b", None)
     if a is None or b is None or not hasattr(a, "boundary_band"):
         return False
